@@ -54,6 +54,15 @@ def geometry(spec):
         # power-of-ten log boxes (spec["decades"][i] = exponents of lb, plb, pub, ub): the images of the bounds sit exactly on the mesh
         dec = spec.get("decades") or [[-2, -1, 0, 1]] * D
         lb = [10.0 ** d[0] for d in dec]; plb = [10.0 ** d[1] for d in dec]; pub = [10.0 ** d[2] for d in dec]; ub = [10.0 ** d[3] for d in dec]
+    elif g == "log_unbounded":
+        # a log-transformed variable next to a fully unbounded one in the same problem
+        lb = [0.001 if i % 2 == 0 else -inf for i in range(D)]
+        ub = [10.0 if i % 2 == 0 else inf for i in range(D)]
+        plb = [0.05 if i % 2 == 0 else -2.0 for i in range(D)]
+        pub = [5.0 if i % 2 == 0 else 3.0 for i in range(D)]
+    elif g == "decimal":
+        # decimal hard bounds that are not representable in single precision, their internal images (+-2) on the mesh
+        lb, ub, plb, pub = [-0.2] * D, [0.2] * D, [-0.1] * D, [0.1] * D
     elif g == "farbasin":
         # hard bounds far wider than the plausible box; optimum (spec["c_abs"]) and start far outside the plausible box, narrow basin
         lb, ub, plb, pub = [-1e5] * D, [1e5] * D, [-1.0] * D, [1.0] * D
@@ -220,7 +229,10 @@ def build(spec, fault=None):
     for k, v in (spec.get("np_options") or {}).items():
         opts[k] = eval(v, {"np": np})
     arr = lambda v: None if v is None else np.array(v, dtype=float)
-    return fun, arr(x0), arr(lb), arr(ub), arr(plb), arr(pub), cons_fn, opts, {"calls": calls, "clean": clean, "c": c}
+    x0a = arr(x0)
+    if x0a is not None and spec.get("x0_dtype"):
+        x0a = x0a.astype(getattr(np, spec["x0_dtype"]))      # a start point held in another floating type (data loaded as float32, ...)
+    return fun, x0a, arr(lb), arr(ub), arr(plb), arr(pub), cons_fn, opts, {"calls": calls, "clean": clean, "c": c}
 
 
 class InjectedFault(Exception):
